@@ -130,7 +130,7 @@ def record(entity, with_arrays: bool = True) -> dict:
                     if val is not None:
                         rec["arrays"][field] = canon(val)
         rec["metadata"] = canon(entity.metadata)
-        if hasattr(type(entity), "options") and type(entity).__name__.endswith("UIJsonGroup"):
+        if isinstance(getattr(type(entity), "options", None), property):
             rec["arrays"]["options"] = canon(entity.options)
         rec["children"] = sorted(ustr(child.uid) for child in children_of(entity))
         pgs = getattr(entity, "property_groups", None)
